@@ -3,6 +3,7 @@
 //! Runs the real Pumpkin (built from /repo's working tree, feature `verif-hooks`) on generated
 //! inputs and prints observation records for the Lean driver on stdout.
 
+mod asg;
 mod config;
 mod dimacs_mode;
 mod drcp;
@@ -549,6 +550,20 @@ fn mode_nlsearch(args: &Args) {
     }
 }
 
+/// the domain store against Model/Assignments.lean
+fn mode_asg(args: &Args) {
+    let mut master = Rng::new(args.seed ^ 0xA55160);
+    for i in 0..args.cases {
+        let case_seed = master.next();
+        if only_skip(args, i) {
+            continue;
+        }
+        let mut r = Rng(case_seed);
+        let id = format!("{}-{}", args.seed, i);
+        run_case(&id, &format!("scen=asg seed={}", case_seed), |out| asg::case(&mut r, out));
+    }
+}
+
 /// C19: DRCP text and literal definitions
 fn mode_drcp(args: &Args) {
     let mut master = Rng::new(args.seed);
@@ -822,6 +837,7 @@ fn main() {
         "probe" => mode_probe(&args),
         "fix" => mode_fix(&args),
         "nlsearch" => mode_nlsearch(&args),
+        "asg" => mode_asg(&args),
         "proof" => mode_proof(&args),
         "configs" => mode_configs(&args),
         "interrupt" => mode_interrupt(&args),
